@@ -2,6 +2,7 @@ package main
 
 import (
 	"fmt"
+	"math"
 	"runtime"
 	"strconv"
 	"strings"
@@ -92,6 +93,12 @@ func (r *c17) Exec(op []string) string {
 			r.base[i] = atoi(t)
 		}
 		r.vs = r.base[off : off+n : off+cp]
+		if len(op) == 4 && off == 0 && n == 0 && cp == 0 {
+			// `reset 0 0 0` without cells: the NIL slice (the same layout as far as the model is concerned: no
+			// backing array, length and capacity 0)
+			r.base, r.vs = nil, nil
+			r.st.Note("nil-slice")
+		}
 		return fmt.Sprintf("vs=%s len=%d cap=%d base=%s", fmtInts(r.vs), len(r.vs), cap(r.vs), fmtInts(r.base))
 
 	case "partition":
@@ -134,6 +141,7 @@ func (r *c17) Exec(op []string) string {
 
 	case "rotate":
 		k, n := atoi(op[1]), len(r.vs)
+		r.noteFar("rotate", k)
 		switch {
 		case k < -n || k > n:
 			r.st.Note("rotate-out-of-range")
@@ -162,6 +170,7 @@ func (r *c17) Exec(op []string) string {
 
 	case "chunks", "batches":
 		n, l := atoi(op[1]), len(r.vs)
+		r.noteFar(op[0], n)
 		if op[0] == "chunks" {
 			switch {
 			case n < 0:
@@ -207,6 +216,7 @@ func (r *c17) Exec(op []string) string {
 
 	case "head", "tail":
 		n := atoi(op[1])
+		r.noteFar(op[0], n)
 		switch {
 		case n < 0:
 		case len(r.vs) < n:
@@ -228,6 +238,7 @@ func (r *c17) Exec(op []string) string {
 
 	case "at":
 		i := atoi(op[1])
+		r.noteFar("at", i)
 		if i < 0 && -i <= len(r.vs) {
 			r.st.Note("at-negative")
 		} else if i >= 0 && i < len(r.vs) {
@@ -237,6 +248,7 @@ func (r *c17) Exec(op []string) string {
 
 	case "ptrat":
 		i := atoi(op[1])
+		r.noteFar("ptrat", i)
 		return r.call(func() string {
 			p := slice.PtrAt(r.vs, i)
 			if p == nil {
@@ -276,6 +288,20 @@ func (r *c17) Exec(op []string) string {
 		return r.call(func() string { return "res=" + fmtInts(slice.Stripe(vs, i)) })
 	}
 	return "bad-op"
+}
+
+// c17far: arguments far outside the valid range and at the ends of the int range, for a slice of length n
+func c17far(n int) []int {
+	return []int{2*n + 1, -2*n - 1, 3*n + 7, -3*n - 7, math.MaxInt64, math.MinInt64, math.MaxInt64 - n, math.MinInt64 + n}
+}
+
+// c17nil is the reset line of the nil slice
+const c17nil = "reset 0 0 0"
+
+func (r *c17) noteFar(op string, k int) {
+	if n := len(r.vs); k > 2*n+3 || k < -2*n-3 {
+		r.st.Note(op + "-far-out-of-range")
+	}
 }
 
 // ---- generators ----
@@ -332,6 +358,7 @@ func genC17Partition(g *G) {
 			g.Each([]string{c17reset(nil, off, spare), "partition 5"})
 		}
 	}
+	g.Each([]string{c17nil, "partition 5", "partition 0"})
 	// random: duplicates, longer slices, repeated partitions of the rearranged slice
 	for c := 0; c < g.Scale(600, 20000); c++ {
 		n := g.Intn(g.Scale(40, 200))
@@ -358,6 +385,13 @@ func genC17Rotate(g *G) {
 		for k := -n - 1; k <= n+1; k++ {
 			g.Each([]string{c17reset(c17iota(n), (n+k+1)%2, (n+k+1)%3), fmt.Sprintf("rotate %d", k)})
 		}
+		// far out of range and extreme offsets (Rotate panics unless -n ≤ k ≤ n), one call per case
+		for j, k := range c17far(n) {
+			g.Each([]string{c17reset(c17iota(n), j%2, j%3), fmt.Sprintf("rotate %d", k)})
+		}
+	}
+	for _, k := range []int{0, 1, -1, math.MaxInt64, math.MinInt64} {
+		g.Each([]string{c17nil, fmt.Sprintf("rotate %d", k)})
 	}
 	for c := 0; c < g.Scale(400, 10000); c++ {
 		n := g.Intn(g.Scale(64, 300))
@@ -387,8 +421,16 @@ func genC17Sub(op string) func(g *G) {
 					for n := -2; n <= l+3; n++ {
 						g.Each([]string{c17reset(c17iota(l), off, spare), fmt.Sprintf("%s %d", op, n)})
 					}
+					if l <= 12 {
+						for _, n := range c17far(l) {
+							g.Each([]string{c17reset(c17iota(l), off, spare), fmt.Sprintf("%s %d", op, n)})
+						}
+					}
 				}
 			}
+		}
+		for _, n := range []int{-1, 0, 1, 2, math.MaxInt64, math.MinInt64} {
+			g.Each([]string{c17nil, fmt.Sprintf("%s %d", op, n)})
 		}
 		for c := 0; c < g.Scale(300, 5000); c++ {
 			l := g.Intn(g.Scale(60, 400))
@@ -416,8 +458,31 @@ func genC17Index(g *G) {
 					ops = append(ops, fmt.Sprintf("at %d", i), fmt.Sprintf("ptrat %d", i))
 				}
 				g.Each(ops)
+				// far out of range / extreme arguments: Head and Tail clamp (negative n panics), At panics, PtrAt
+				// answers nil; one call per case (a panic ends nothing, but a minimal failing input is one call)
+				for _, n := range c17far(l) {
+					g.Each([]string{rs, fmt.Sprintf("head %d", n)})
+					g.Each([]string{rs, fmt.Sprintf("tail %d", n)})
+					g.Each([]string{rs, fmt.Sprintf("at %d", n), fmt.Sprintf("ptrat %d", n)})
+				}
 			}
 		}
+	}
+	for _, n := range []int{-1, 0, 1, math.MaxInt64, math.MinInt64} {
+		g.Each([]string{c17nil, fmt.Sprintf("head %d", n), fmt.Sprintf("tail %d", n), fmt.Sprintf("at %d", n), fmt.Sprintf("ptrat %d", n)})
+	}
+	// random part for Head/Tail/At/PtrAt: longer slices with arbitrary values in every layout
+	for c := 0; c < g.Scale(300, 5000); c++ {
+		l := g.Intn(g.Scale(60, 300))
+		ops := []string{c17reset(c17rand(g, l, 1000), g.Intn(3), g.Intn(4))}
+		for k := 0; k < 6; k++ {
+			n := g.Intn(2*l+6) - l - 3
+			if g.Chance(1, 8) {
+				n = c17far(l)[g.Intn(8)]
+			}
+			ops = append(ops, fmt.Sprintf("%s %d", g.Pick("head", "tail", "at", "ptrat"), n))
+		}
+		g.Case(ops)
 	}
 	for c := 0; c < g.Scale(400, 8000); c++ {
 		m := g.Intn(6)
